@@ -8,8 +8,11 @@ VARIABLES par, csent, cfin, chead, stage, uframing, relayed, ofin
 vars == <<par, csent, cfin, chead, stage, uframing, relayed, ofin>>
 Init ==
   /\ par \in [method : {"POST", "PUT"}, cframing : {"length", "chunked"}, units : 0..MaxUnits, abortAt : (0 - 1)..MaxUnits,
-              expect : BOOLEAN, ext : BOOLEAN, trailers : BOOLEAN]
+              expect : BOOLEAN, ext : BOOLEAN, trailers : BOOLEAN,
+              early : BOOLEAN]     \* the origin answers (complete, keep-alive) as soon as it has the head, while the client is
+                                   \* stuck in the middle of the body; another request for the same origin follows before the client gives up
   /\ par.abortAt <= par.units
+  /\ (par.early => par.abortAt >= 0 /\ ~par.expect)
   /\ (par.cframing = "length" => ~par.ext /\ ~par.trailers)
   /\ (par.abortAt >= 0 => par.units > 0)
   /\ csent = 0 /\ cfin = "no" /\ chead = FALSE /\ stage = "idle" /\ uframing = "none" /\ relayed = 0 /\ ofin = "open"
